@@ -279,3 +279,41 @@ Qed.
 Theorem run_cost_exponential k :
   (2 ^ S k <= cost G_xml (fuel_bound G_xml_R (nested_doc k)) (NT nt_document) (nested_doc k))%nat.
 Proof. apply document_cost. exact (xml_grammar_terminates nt_document (nested_doc k)). Qed.
+
+(** ** no polynomial bounds the cost *)
+Local Open Scope nat_scope.
+
+Lemma lin_below_pow a b : exists j, 4 <= j /\ a + j * b <= 2 ^ j.
+Proof.
+  set (m := a + 2 * b + 2). exists (2 * m). split; [unfold m; lia|].
+  assert (m < 2 ^ m) as Hm by (apply Nat.pow_gt_lin_r; lia).
+  replace (2 ^ (2 * m)) with (2 ^ m * 2 ^ m) by (rewrite <- Nat.pow_add_r; f_equal; lia).
+  assert (m * m <= 2 ^ m * 2 ^ m) as H2 by (apply Nat.mul_le_mono; lia).
+  assert (a + 2 * m * b <= m * m) as H3 by (unfold m; nia).
+  lia.
+Qed.
+
+Lemma exp_beats_poly c d : exists k, c * (4 * k + 38) ^ d < 2 ^ S k.
+Proof.
+  destruct (lin_below_pow (c + 3 * d) d) as [j [Hj4 Hj]].
+  exists (2 ^ j).
+  assert (4 * 2 ^ j + 38 <= 2 ^ (j + 3)) as Hb.
+  { rewrite Nat.pow_add_r. change (2 ^ 3) with 8. assert (16 <= 2 ^ j) by (change 16 with (2 ^ 4); apply Nat.pow_le_mono_r; lia). lia. }
+  assert ((4 * 2 ^ j + 38) ^ d <= 2 ^ ((j + 3) * d)) as Hp.
+  { rewrite Nat.pow_mul_r. apply Nat.pow_le_mono_l. exact Hb. }
+  assert (c < 2 ^ c) as Hc by (apply Nat.pow_gt_lin_r; lia).
+  assert (c * (4 * 2 ^ j + 38) ^ d < 2 ^ c * 2 ^ ((j + 3) * d)) as H1.
+  { assert (0 < 2 ^ ((j + 3) * d)) by (apply Nat.neq_0_lt_0; apply Nat.pow_nonzero; lia).
+    apply Nat.le_lt_trans with (c * 2 ^ ((j + 3) * d)); [apply Nat.mul_le_mono_l; exact Hp|].
+    apply Nat.mul_lt_mono_pos_r; assumption. }
+  rewrite <- Nat.pow_add_r in H1.
+  apply Nat.lt_le_trans with (1 := H1). apply Nat.pow_le_mono_r; [lia|]. lia.
+Qed.
+
+Theorem run_cost_not_polynomial c d :
+  exists s, c * (length s + 1) ^ d < cost G_xml (fuel_bound G_xml_R s) (NT nt_document) s.
+Proof.
+  destruct (exp_beats_poly c d) as [k Hk]. exists (nested_doc k). rewrite nested_doc_length.
+  replace (4 * k + 37 + 1) with (4 * k + 38) by lia.
+  eapply Nat.lt_le_trans; [exact Hk|apply run_cost_exponential].
+Qed.
